@@ -310,6 +310,11 @@ func (rw *ReadWriter) Initialize() error {
 			}
 			arrayLength = byte(goType.Len())
 			goType = goType.Elem()
+
+			// MAVLink has no arrays of strings (a char array is a single string with a mavlen tag)
+			if goType.Kind() == reflect.String {
+				return fmt.Errorf("arrays of strings are not supported")
+			}
 		}
 
 		isEnum := false
